@@ -22,8 +22,9 @@ RULE = ("Seeded routines over arrays of extent n (2..6) with full, partial, "
         "device loops; seeded history of ACCKernelsTrans / ACCParallelTrans+"
         "ACCLoopTrans per loop (default(present) on or off), ACCDataTrans "
         "over one or two statement ranges applied before or after the "
-        "compute transformations, optionally ChunkLoopTrans inside the "
-        "region afterwards and ACCUpdateTrans on the routine. Non-trivial: "
+        "compute transformations, optionally a nested data region, moving the "
+        "following statement into the region (tree API) and ChunkLoopTrans "
+        "inside the region afterwards. Non-trivial: "
         "at least one data region entered with >=1 array moved and >=1 "
         "device array access. Distinct by (program digest, recipe, n).")
 REAL_VS_STUB = {
@@ -154,6 +155,19 @@ def build(prog, recipe):
         else:
             apply_data()
             apply_compute()
+        if recipe.get("move_in"):
+            # a script moves the statement that follows the first data
+            # region to the end of that region through the public tree API
+            # (MoveTrans only moves within one parent); the clauses must
+            # follow the edit (Node.update_signal -> _update_node)
+            s0, e0 = recipe["data"][0]
+            if e0 + 1 < len(tops) and not any(
+                    s <= e0 + 1 <= e for s, e in recipe["data"][1:]):
+                node = tops_now(e0 + 1)
+                region = tops_now(e0).ancestor(ACCDataDirective)
+                if region is not None and node.parent is routine:
+                    region.dir_body.addchild(node.detach())
+                    log.append("move-in")
         if recipe["chunk_after"]:
             for loop in routine.walk(Loop):
                 if loop.ancestor(ACCDataDirective) is not None and \
@@ -441,7 +455,7 @@ def minimise(prog, recipe, inputs, cls):
                 inputs, best = cand, got
                 break
     for key, off in (("chunk_after", False), ("update", False),
-                     ("inner_data", None)):
+                     ("inner_data", None), ("move_in", False)):
         if recipe.get(key) not in (False, None):
             cand = dict(recipe, **{key: off})
             got = fails_with(prog, cand, inputs, cls)
